@@ -43,6 +43,22 @@ def E4D(scenarios=""):
 
 CLUSTER_NOTE = "E4: real nodes in a testing/synctest bubble (virtual time), transport that parks every Send* call, real file-backed storage behind recording wrappers, crash = directory image + cut-off zombie; scheduler actions: deliver/hold/lose/duplicate a call, advance time, client writes/reads at any node, two- and one-way partitions, crash/restart, membership changes, snapshots; all property oracles after every action and after a fault-free period"
 
+E3_LD = {"test": "TestE3Leader", "env": {"quick": {"VERIF_N": 250}, "thorough": {"VERIF_N": 1500}},
+         "shards": {"quick": 2, "thorough": 16}}
+E3_LC = {"test": "TestE3Lifecycle", "env": {"quick": {"VERIF_N": 150}, "thorough": {"VERIF_N": 1200}},
+         "shards": {"quick": 1, "thorough": 16}}
+TIES = [E3_AE, E3_RV, E3_EL, E3_LD]   # node-level correspondence every cluster-level statement rests on
+TIE_NOTE = " The node functions these statements are about are the ones E3 compares with the real handlers and sections on every run (E3: AppendEntries and RequestVote handlers, election and vote replies, and E3-leader: submissions, membership requests, heartbeat rounds, replication replies and the commit/apply/read-only loops of a started node)."
+
+
+def with_ties(engs, extra=()):
+    out = list(engs)
+    for e in list(TIES) + list(extra):
+        if not any(x["test"] == e["test"] for x in out):
+            out.append(e)
+    return out
+
+
 PROPS = {
     "C01": {
         "level": "proof",
@@ -180,3 +196,35 @@ PROPS = {
                         "gRPC framing and the 4 MiB message limit are outside the model (a transport error is non-delivery, not corruption)"],
     },
 }
+
+
+# cluster-level properties: node-level ties + the properties their proofs rest on
+_DEPS = {
+    "C01": ["C02", "C04", "C06", "C07", "C08"],
+    "C02": ["C08"],
+    "C03": ["C01", "C02", "C07"],
+    "C04": ["C01", "C02", "C07", "C12"],
+    "C05": ["C01", "C02"],
+    "C07": ["C02", "C06", "C08"],
+    "C09": [],
+    "C10": ["C01"],
+    "C11": ["C06", "C12"],
+    "C14": ["C01", "C02", "C04", "C08"],
+    "C15": ["C14"],
+    "C16": ["C02"],
+    "C17": ["C02", "C05"],
+    "C06": ["C12"],
+}
+_OWNS = {"C14": ["C12", "C13"]}
+for _p, _d in _DEPS.items():
+    PROPS[_p]["deps"] = _d
+    if _p not in ("C06", "C11"):
+        PROPS[_p]["engines"] = with_ties(PROPS[_p]["engines"], ([E3_IS] if _p in ("C07", "C10", "C14", "C15") else []) + ([E3_LC] if _p in ("C01", "C03", "C09", "C14", "C15") else []))
+        PROPS[_p]["explanation"] += TIE_NOTE
+for _p, _o in _OWNS.items():
+    PROPS[_p]["owns"] = _o
+PROPS["C06"]["engines"] = PROPS["C06"]["engines"] + [E2_LOG]
+PROPS["C11"]["engines"] = PROPS["C11"]["engines"] + [E3_AE, E2_LOG]
+PROPS["C19"]["engines"] = PROPS["C19"]["engines"] + [E2_LOG, E2_SS]
+PROPS["C19"]["deps"] = ["C12", "C13"]
+PROPS["C19"]["explanation"] += " Storage read-back: the E2 engines (operation scripts on the real log / state / snapshot storages, reopened with the real constructors) report every state without an operation in flight whose read-back differs from what was written."
